@@ -348,6 +348,10 @@ func seedState(b *world.Base) (sdk.Context, *world.Snap) {
 		{Kind: world.OpBlock, Time: T.Add(time.Hour)},     // fixed price auction settles -> vesting
 		{Kind: world.OpBlock, Time: T.Add(2 * time.Hour)}, // first instalment released
 	}
+	// more bids than one page of a listing holds (the default page size is 100)
+	for i := 0; i < 115; i++ {
+		ops = append(ops, world.Op{Kind: world.OpPlaceBid, Signer: 3, Auction: 1, BidType: 3, Price: "0.7", CoinDenom: "sellb", CoinAmount: "1"})
+	}
 	for _, o := range ops {
 		st, _ := h.Exec(o)
 		if !st.Res.OK {
@@ -515,6 +519,57 @@ func TestC20(t *testing.T) {
 		}
 		checkDisplay(t, fixed[0], out, err)
 		col.Case(map[string]any{"cmd": fixed[0], "args": fixed[1:], "pass": "deterministic"}, false, map[string]int{"c20:query-deterministic/" + fixed[0]: 1}, nil)
+	}
+	if t.Failed() {
+		return
+	}
+	// a listing longer than one page: following next_key (no explicit limit) must show every stored
+	// record exactly once
+	if haveCmd["query/list-bid"] {
+		seen := map[string]int{}
+		key, pages := "", 0
+		for ; pages < 12; pages++ {
+			args := []string{"list-bid", "--auction-id", "1"}
+			if key != "" {
+				args = append(args, "--page-key", key)
+			}
+			out, _, err := runQuery(args...)
+			if err != nil {
+				report(col, t, "C20/pagination/list-bid", "query fundraising %s failed: %v\n%s", strings.Join(args, " "), err, out)
+				break
+			}
+			var page struct {
+				Bid []struct {
+					ID string `json:"id"`
+				} `json:"bid"`
+				Pagination struct {
+					NextKey string `json:"next_key"`
+				} `json:"pagination"`
+			}
+			if err := json.Unmarshal([]byte(out), &page); err != nil {
+				report(col, t, "C20/pagination/list-bid", "the output of query fundraising %s is not the expected JSON: %v\n%s", strings.Join(args, " "), err, out)
+				break
+			}
+			for _, b := range page.Bid {
+				seen[b.ID]++
+			}
+			key = page.Pagination.NextKey
+			if key == "" {
+				break
+			}
+		}
+		want := snap.BidsOf(1)
+		bad := ""
+		for _, b := range want {
+			if seen[fmt.Sprint(b.ID)] != 1 {
+				bad = fmt.Sprintf("bid %d of auction 1 was shown %d times", b.ID, seen[fmt.Sprint(b.ID)])
+				break
+			}
+		}
+		if bad != "" || len(seen) != len(want) {
+			report(col, t, "C20/pagination/list-bid", "following next_key through 'query fundraising list-bid --auction-id 1' (%d stored bids, %d pages fetched) showed %d distinct bids; %s", len(want), pages+1, len(seen), bad)
+		}
+		col.Case(map[string]any{"cmd": "list-bid", "pass": "pagination-walk"}, true, map[string]int{"c20:pagination-walk/list-bid": 1}, map[string]any{"command": "query fundraising list-bid --auction-id 1 [--page-key <next_key>]", "stored": len(want), "pages": pages + 1})
 	}
 	if t.Failed() {
 		return
